@@ -113,9 +113,16 @@ theorem WSched.notifyFailure {w : WorkerSt} (h : WSched w) (a t : Pid) : WSched 
   unfold WorkerSt.notifyFailure
   split
   · split
-    · exact (h.modProc a (fun x => { x with awaitFailed := sinsert x.awaitFailed t }) (fun _ => rfl)).wakeSelecting a
+    · apply WSched.wakeSelecting
+      apply h.modProc
+      intro x; rfl
     · exact h
   · exact h
+
+theorem WSched.notifyPending {w : WorkerSt} (h : WSched w) (a t : Pid) : WSched (w.notifyPending a t) := by
+  unfold WorkerSt.notifyPending
+  apply h.modProc
+  intro x; rfl
 
 theorem WSched.notifyResult {w : WorkerSt} (h : WSched w) (a t : Pid) (r : Res) : WSched (w.notifyResult a t r) := by
   cases r with
@@ -127,9 +134,9 @@ theorem WSched.applyResults (a : Pid) : ∀ (rs : Results) {w : WorkerSt}, WSche
   | (t, some r) :: rest, _, h => by
     unfold QM.Sys.applyResults
     exact WSched.applyResults a rest (h.notifyResult a t r)
-  | (_, none) :: rest, _, h => by
+  | (t, none) :: rest, _, h => by
     unfold QM.Sys.applyResults
-    exact WSched.applyResults a rest h
+    exact WSched.applyResults a rest (h.notifyPending a t)
 
 theorem WSched.checkExpired {w : WorkerSt} (h : WSched w) (prog : Prog) (now : Nat) (ordQ : List Pid) :
     WSched (w.checkExpired prog now ordQ) := by
@@ -541,12 +548,14 @@ theorem WSched.eraseSpawning {w : WorkerSt} (h : WSched w) (c : Pid) :
   · rfl
 @[simp] theorem notifyResult_spawning (w : WorkerSt) (a t : Pid) (r : Res) : (w.notifyResult a t r).spawning = w.spawning := by
   cases r <;> simp [WorkerSt.notifyResult]
+@[simp] theorem notifyPending_spawning (w : WorkerSt) (a t : Pid) : (w.notifyPending a t).spawning = w.spawning := by
+  simp [WorkerSt.notifyPending]
 theorem applyResults_spawning (a : Pid) : ∀ (rs : Results) (w : WorkerSt), (applyResults w a rs).spawning = w.spawning
   | [], _ => rfl
   | (t, some r) :: rest, w => by
     unfold QM.Sys.applyResults; rw [applyResults_spawning a rest]; simp
-  | (_, none) :: rest, w => by
-    unfold QM.Sys.applyResults; exact applyResults_spawning a rest w
+  | (t, none) :: rest, w => by
+    unfold QM.Sys.applyResults; rw [applyResults_spawning a rest]; simp
 
 theorem queryTargets_sched (a : Pid) : ∀ (ts : List Pid) (w : WorkerSt),
     (queryTargets w a ts).1.queue = w.queue ∧ (queryTargets w a ts).1.spawning = w.spawning ∧
@@ -846,11 +855,13 @@ theorem slice_result (prog : Prog) (now : Nat) (self : Pid) : ∀ (fuel : Nat) (
         split
         · exact slice_result prog now self fuel _
         · exact Or.inr rfl
-      · dsimp only
-        split
-        · exact slice_result prog now self fuel _
-        · exact Or.inl rfl
+      · split
         · exact Or.inr rfl
+        · dsimp only
+          split
+          · exact slice_result prog now self fuel _
+          · exact Or.inl rfl
+          · exact Or.inr rfl
 
 theorem finish_spawning_foldl (cur : Pid) (r : Res) : ∀ (l : List Pid) (w : WorkerSt),
     (l.foldl (fun acc a => acc.notifyResult a cur r) w).spawning = w.spawning
